@@ -101,6 +101,11 @@ func (c *conn) rangeAndClean(f func(index int, resultChan chan data)) {
 }
 
 func (c *conn) Transport(ctx context.Context, request []byte) (response []byte, err error) {
+	if len(request) > maxBodyLength {
+		// the length field of the frame has 31 bits: a longer body would be declared with
+		// its length modulo 2^31 and the service would be handed its first bytes
+		return nil, core.ErrRequestEntityTooLarge
+	}
 	index := int(atomic.AddInt32(&c.counter, 1) & 0x7fffffff)
 	resultChan := make(chan data, 1)
 	c.store(index, resultChan)
